@@ -163,6 +163,22 @@ fn find_slice_files_in_path(
     diagnostics: &mut Diagnostics,
 ) -> Vec<PathBuf> {
     let mut paths = Vec::new();
+
+    // If we can't even tell what the path leads to (for instance because we aren't allowed to search the directory it's
+    // in), report it. Otherwise the Slice files at or below it would silently be left out of the compilation.
+    // The exception is a path that leads nowhere (a broken symbolic link), which we ignore like any other non-Slice file.
+    if let Err(error) = path.metadata() {
+        if error.kind() != io::ErrorKind::NotFound {
+            Diagnostic::new(Error::IO {
+                action: "read",
+                path: path.display().to_string(),
+                error,
+            })
+            .push_into(diagnostics);
+        }
+        return paths;
+    }
+
     if path.is_dir() {
         // Directories can be reached multiple times through symbolic links (even from within themselves).
         // If we've already searched this directory, we skip it, otherwise links to parent directories never terminate.
